@@ -25,7 +25,7 @@ type uploadCase struct {
 	ReadK  int    `json:"read_k"` // body bytes it reads before acting (-1 = all)
 	After  string `json:"after"`  // after answering: "close" | "drain" | "hold"
 	Size   int    `json:"size"`
-	Chunk  int    `json:"chunk"` // caller's write size (0 = single write)
+	Chunk  int    `json:"chunk"`  // caller's write size (0 = single write)
 	Caller string `json:"caller"` // "stop-on-error" | "ignore-errors"
 }
 
